@@ -61,7 +61,9 @@ MODEL_FIELDS = [
     [("file", None), ("files", None), ("type_", "type"), ("sub_items", "subItems")],
     [("value", None)],
     [("a", None), ("b", "B"), ("c", None), ("d", "dd"), ("e", None)],
+    [("opt", None), ("y", "Y")],          # "opt" defaults to UNSET (an UNSET that is never met when the field is unset)
 ]
+UNSET_DEFAULT = {(4, "opt")}
 N_UPLOADS = 4
 
 
@@ -100,7 +102,7 @@ class Gen:
             if self.rng.random() < 0.6:
                 fs.append((py, al, True, self.node(depth - 1, "dumped", p_up)))
             else:
-                fs.append((py, al, False, ("leaf", "none", None)))
+                fs.append((py, al, False, ("unset",) if (ci, py) in UNSET_DEFAULT else ("leaf", "none", None)))
         return ("model", ci, fs)
 
     def variables(self, stream):
@@ -173,7 +175,8 @@ def model_classes():
         for i, fs in enumerate(MODEL_FIELDS):
             spec = {}
             for py, al in fs:
-                spec[py] = (Any, Field(alias=al, default=None) if al else Field(default=None))
+                dflt = bm.UNSET if (i, py) in UNSET_DEFAULT else None
+                spec[py] = (Any, Field(alias=al, default=dflt) if al else Field(default=dflt))
             cls.append(create_model(f"VInput{i}", __base__=bm.BaseModel, **spec))
         _MODEL_CLASSES = cls
     return _MODEL_CLASSES
@@ -403,6 +406,14 @@ def gen_calls(ctx):
                              ("type_", "type", False, ("leaf", "none", None)), ("sub_items", "subItems", True, ("dict", [("k", ("up", 0))]))]))],
         [("a", ("unset",)), ("b", ("unset",))],
         [("d", ("dict", [("0", ("up", 1)), ("1", ("list", [("up", 1)]))]))],
+        # Example C11_unset_in_unset_field_is_sent
+        [("a", ("model", 4, [("opt", None, False, ("unset",)), ("y", "Y", True, ("leaf", "int", 1))]))],
+        # Example C11_example_multipart (ex_vars)
+        [("a", ("up", 3)), ("skip", ("unset",)), ("b", ("list", [("up", 3), ("dict", [("c", ("up", 2))])])),
+         ("d", ("model", 0, [("id_", "id", True, ("leaf", "int", 1)), ("name", None, True, ("up", 3)),
+                             ("sub", None, False, ("leaf", "none", None))]))],
+        # Example C11_example_json
+        [("x", ("unset",)), ("y", ("leaf", "none", None))],
         # regression witness of the fixed finding C11-model-under-dict (/repo dd85cf5)
         [("w", ("dict", [("m", ("model", 1, [("file", None, True, ("up", 0)), ("files", None, False, ("leaf", "none", None)),
                                              ("type_", "type", False, ("leaf", "none", None)),
@@ -414,6 +425,8 @@ def gen_calls(ctx):
     for vs in fixed:
         for hname, h in HEADERS:
             calls.append(Call(len(calls), "main", vs, hname, h, None, QUERIES[0], "Q"))
+    # Example C11_example_json, third conjunct: an UNSET met below the top level, nothing is sent
+    calls.append(Call(len(calls), "nested-unset", [("l", ("list", [("unset",)]))], "absent", None, None, QUERIES[0], None))
     # every stream kind x position, one and two uploads
     for kind in STREAM_KINDS:
         for posname in POSITIONS:
@@ -559,6 +572,48 @@ def snap_diff(a, b, path="variables"):
     return f"{path}: changed"
 
 
+def _span_count(client):
+    tr = getattr(client, "tracer", None)
+    return len(tr.spans) if hasattr(tr, "spans") else None
+
+
+def _spans_since(client, n0):
+    """spans a recording tracer collected during this call: (name, [(attribute, value)...]) in the order set"""
+    if n0 is None:
+        return None
+    return [(sp.name, list(sp.attrs.items()), sp.ended) for sp in client.tracer.spans[n0:]]
+
+
+def check_spans(m, obs):
+    """K1 for the telemetry path: Model execute_with_telemetry vs what the recording tracer saw."""
+    if len(obs) < 7 or obs[6] is None:
+        return []
+    treq, mspans = m[6]
+    diffs = []
+    if treq != m[0]:
+        diffs.append("model: telemetry path and plain path build different requests")
+    got = obs[6]
+    if [g[0] for g in got] != [sp[0] for sp in mspans]:
+        return diffs + [f"span names {[g[0] for g in got]} != model {[sp[0] for sp in mspans]}"]
+    for (name, attrs, ended), (_, mattrs) in zip(got, mspans):
+        if not ended:
+            diffs.append(f"span {name} not ended")
+        if [k for k, _ in attrs] != [k for k, _ in mattrs]:
+            diffs.append(f"span {name}: attributes {[k for k, _ in attrs]} != model {[k for k, _ in mattrs]}")
+            continue
+        for (k, v), (_, mv) in zip(attrs, mattrs):
+            want = sx_json(mv)
+            if k in ("variables", "map"):
+                try:
+                    if pairs_canon(v) != canon(want):
+                        diffs.append(f"span {name}: {k} = {v!r}, model {want!r}")
+                except (TypeError, ValueError):
+                    diffs.append(f"span {name}: {k} is not JSON text: {v!r}")
+            elif v != want:
+                diffs.append(f"span {name}: {k} = {v!r}, model {want!r}")
+    return diffs
+
+
 def _prepare(c, store, cache):
     """the caller's objects for this call; with a cache (histories) the very same variables dict / headers dict
     objects are handed to execute again when the same tree / headers recur"""
@@ -581,13 +636,15 @@ def _one_sync(client, c, captured, store, cache=None):
     variables, kw = _prepare(c, store, cache)
     st = store.state()
     before = (snap(variables), snap(kw))
+    n0 = _span_count(client)
     try:
         resp = client.execute(c.query, operation_name=c.opname, variables=variables, **kw)
         r = ("sent", captured.get("req"), canon(client.get_data(resp)), st)
     except Exception as e:  # noqa: BLE001
         r = ("raised", type(e).__name__, captured.get("req"), st)
     after = (snap(variables), snap(kw))
-    return r + (snap_diff(before[0], after[0]) or snap_diff(before[1], after[1], "kwargs"), store.state())
+    return r + (snap_diff(before[0], after[0]) or snap_diff(before[1], after[1], "kwargs"), store.state(),
+                _spans_since(client, n0))
 
 
 async def _one_async(client, c, captured, store, cache=None):
@@ -595,13 +652,15 @@ async def _one_async(client, c, captured, store, cache=None):
     variables, kw = _prepare(c, store, cache)
     st = store.state()
     before = (snap(variables), snap(kw))
+    n0 = _span_count(client)
     try:
         resp = await client.execute(c.query, operation_name=c.opname, variables=variables, **kw)
         r = ("sent", captured.get("req"), canon(client.get_data(resp)), st)
     except Exception as e:  # noqa: BLE001
         r = ("raised", type(e).__name__, captured.get("req"), st)
     after = (snap(variables), snap(kw))
-    return r + (snap_diff(before[0], after[0]) or snap_diff(before[1], after[1], "kwargs"), store.state())
+    return r + (snap_diff(before[0], after[0]) or snap_diff(before[1], after[1], "kwargs"), store.state(),
+                _spans_since(client, n0))
 
 
 def _run_variant(args):
@@ -1055,7 +1114,7 @@ def run(ctx):
             m = mres[c.idx]
             where = f"history {hi} step {k + 1}/{len(h)} on client object {vname}"
             hist_rep = [{"client_object": f"{variants[s0 // 2].name}#{s0 % 2}", "call": c0.replay()} for s0, c0 in h[:k + 1]]
-            d = check_against_model(c, m, obs, ch)
+            d = check_against_model(c, m, obs, ch) + check_spans(m, obs)
             if d:
                 k1.append((tree_size(c.vs) + 100 * k, vname, c, [f"{where}: " + d[0]] + d[1:], hist_rep))
             probs, cls = k3_property(c, obs, ch)
@@ -1090,7 +1149,9 @@ def run(ctx):
         for c, m, obs in zip(calls, mres, results):
             run.count()
             guard_ok, f_dict, f_ct, rt = m[1] == "t", m[2] == "t", m[3] == "t", m[4] == "t"
-            d = check_against_model(c, m, obs, CLIENT_HEADERS)
+            d = check_against_model(c, m, obs, CLIENT_HEADERS) + check_spans(m, obs)
+            if (m[7] == "t") != (m[0][0] == "error"):
+                run.broken("model: error <-> UNSET met", json.dumps(c.replay(), default=str))
             if d:
                 k1.append((tree_size(c.vs), vname, c, d))
             if not rt and guard_ok:
